@@ -113,6 +113,8 @@ def extra_seeds():
         {"kind": "xml", "rows": [{"enc": [["ab", 1], [1, 1]], "rep": 1}, {"enc": [[2, 1], ["c d", 1]], "rep": 1}], "cols": [2]},
         # one column only
         {"kind": "xml", "rows": [{"enc": [[1, 1]], "rep": 2}, {"enc": [[2, 1]], "rep": 1}], "cols": [1]},
+        # values that evaluate to False are values: trailing 0 cells / rows of zeros must survive stripping
+        {"kind": "xml", "rows": [{"enc": [[1, 1], [0, 2]], "rep": 1}, {"enc": [[0, 1], [None, 2]], "rep": 1}, {"enc": [[0, 3]], "rep": 2}, {"enc": [[None, 3]], "rep": 1}], "cols": [3]},
     ]
 
 
@@ -469,6 +471,10 @@ class TransformMachine:
                 got = [[(None if v == "" else v) for v in row] for row in t2.get_values()]
                 exp = [[(v.strip() if isinstance(v, str) else v) for v in row] for row in pv]
                 exp = [[(None if v == "" else v) for v in row] for row in exp]
+                # CSV carries no types: a string cell that reads as a number ('1' after a merging span)
+                # legitimately comes back as that number -> compared through their CSV spelling
+                exp = [[(None if v is None else str(v)) for v in row] for row in exp]
+                got = [[(None if v is None else str(v)) for v in row] for row in got]
                 te, tg = trim(exp), trim(got)
                 # interior empty rows are kept as empty lines; compare row by row
                 if te != tg:
